@@ -89,7 +89,14 @@ class Schema:
         v.kind, v.val, v.own, v.block, v.length = t.kind, t.val, None, None, 0
         if t.kind == 'str':
             v.length = len(t.val)
-            v.own = M.ledger.alloc('copied string %r' % t.val)       # as after SetString(s, alloc): the node owns it
+            if getattr(t, 'borrowed', False):
+                v.own = None                 # a constant string (SetString(view) / Node(view)): the characters belong to the caller
+                v.addr = dm.new_addr()
+            else:
+                v.own = M.ledger.alloc('copied string %r' % t.val)       # as after SetString(s, alloc): the node owns it
+                if not hasattr(M, 'str_owner'):
+                    M.str_owner = {}
+                M.str_owner[v.own] = v
         if t.kind == 'arr' and t.kids:
             b = Block(M.ledger, len(t.kids), 1)
             for j, c in enumerate(t.kids):
